@@ -401,8 +401,18 @@ def worker_entry(a):
 # destinations and the replies must agree; the driver's monitors (ASan, recorder, WF, digests) judge each call.
 EDGE_FNS = [n for n in GENERIC if n not in ('mpz_nextprime', 'mpz_next_prime_candidate')]
 
+def smooth(r):
+    v = 1
+    for _ in range(r.randint(1, 6)): v *= r.choice([3, 3, 5, 7, 9, 11, 25, 49, 121, 169, 961, 997 * 997, 2]) ** r.randint(1, 3)
+    return v
+
 def edge_z(r):
     k = r.randint(1, 5); Bk = 1 << (64 * k)
+    if r.random() < 0.2:
+        # arithmetic structure instead of bit structure: smooth numbers, perfect powers and their neighbours, each also with whole zero low limbs
+        v = r.choice([smooth(r), smooth(r), r.randint(2, 99) ** r.randint(2, 9), (gen.nat(r, 1) | 1) ** r.choice([2, 3, 5])]) + r.choice([0, 0, 0, 1, -1])
+        v = abs(v) << (64 * r.choice([0, 0, 1, 2, 3, 5]))
+        return -v if r.random() < 0.4 else v
     v = r.choice([0, 1, 2, Bk - 1, Bk, Bk + 1, Bk >> 1, (Bk >> 1) - 1, Bk - (1 << 64 * (k - 1)), gen.nat(r, k, 'rand') << (64 * r.randint(1, 3)),
                   (gen.nat(r, 1) | 1) << 63, gen.nat(r, k, 'ones'), gen.nat(r, k)])
     return -v if r.random() < 0.4 else v
